@@ -1,13 +1,16 @@
 (* Props/C20.v — BCUR / bc32 / CBOR air-gap transport reassembles exactly or fails loudly.
    Only statements, each closed by [exact] of a lemma from Proofs/, followed by Print Assumptions.
-   sha256 is universally quantified.  A BCUR string is modelled by its header fields [part]
-   (form, x, y, checksum text, payload text); the string layer (split, int()) is tied by
-   correspondence only.
+   sha256 is universally quantified.  Two layers: the header fields [part] (form, x, y, checksum
+   text, payload text) of Model/Bcur.v, and the real strings of Model/BcurStr.v (lower, strip,
+   startswith, split("/"), split("of"), int(), the f-strings with str(int)); the string-level
+   functions are proved to be the field-level functions after the header parser [str_fields]
+   (C20_*_refines), the header parser inverts the f-strings (C20_str_fields_fmt), and the
+   round-trip / rejection theorems are stated again on the strings a user passes around.
 
    sha256 output is assumed to be a 32-byte string where a theorem says so. *)
 From V Require Import Base.Prelude Base.Ints Base.Lfsr Model.Helper Model.Base58 Model.Bech32
-  Model.Bcur Proofs.Base58P Proofs.PolymodP Proofs.BcurP Proofs.ConvertbitsP Proofs.Bc32P
-  Proofs.Bech32DetectP Proofs.Bc32SubP.
+  Model.Bcur Model.BcurStr Proofs.Base58P Proofs.PolymodP Proofs.BcurP Proofs.ConvertbitsP Proofs.Bc32P
+  Proofs.Bech32DetectP Proofs.Bc32SubP Proofs.BcurStrP Proofs.BcurSubstP Proofs.BcurSingleSubstP.
 
 (* ------------------------------------------------------------------ CBOR *)
 
@@ -179,6 +182,185 @@ Theorem C20_single_roundtrip :
 Proof. exact single_roundtrip. Qed.
 Print Assumptions C20_single_roundtrip.
 
+(* ------------------------------------------------------------------ the string layer *)
+
+(* int(str(n)) = n (the x and y of "xofy" survive the f-string and int()) *)
+Theorem C20_int_of_str : forall n, - 2 ^ 64 < n < 2 ^ 64 -> py_int (str_int n) = Ok n.
+Proof. exact py_int_str_int. Qed.
+Print Assumptions C20_int_of_str.
+
+(* the header parser (lower, strip, startswith, split("/"), split("of"), int()) inverts the
+   f-strings of BCURSingle.encode / BCURMulti.encode on every well-formed part: fields without
+   '/', white space or upper-case letters; forms 2, 3 and 4 *)
+Theorem C20_str_fields_fmt : forall p, wf_part p -> str_fields (fmt_part p) = Ok p.
+Proof. exact str_fields_fmt. Qed.
+Print Assumptions C20_str_fields_fmt.
+
+(* BCURSingle.parse / BCURMulti.parse on strings = header parser, then the field-level function
+   (every field-level theorem above therefore speaks about the strings as well) *)
+Theorem C20_single_parse_str_refines :
+  forall (sha256 : bytes -> bytes) s,
+  single_parse_str sha256 s = (p <- str_fields s ;; single_parse sha256 p).
+Proof. exact single_parse_str_refines. Qed.
+Print Assumptions C20_single_parse_str_refines.
+
+Theorem C20_multi_parse_str_refines :
+  forall (sha256 : bytes -> bytes) ss,
+  multi_parse_str sha256 ss = (ps <- mapr str_fields ss ;; multi_parse sha256 ps).
+Proof. exact multi_parse_str_refines. Qed.
+Print Assumptions C20_multi_parse_str_refines.
+
+(* soundness of the header parser: an accepted string is, after lower() and strip(), literally
+   "ur:bytes/<payload>", "ur:bytes/<checksum>/<payload>" or "ur:bytes/<a>of<b>/<checksum>/<payload>"
+   with int(a) = x, int(b) = y and no further '/': the fields are substrings of the input *)
+Theorem C20_str_fields_sound :
+  forall s p, str_fields s = Ok p ->
+  noslash (p_chk p) /\ noslash (p_payload p) /\
+  ((p_form p = 2 /\ p_x p = 1 /\ p_y p = 1 /\ p_chk p = [] /\
+    strip (lower s) = ur_prefix ++ p_payload p) \/
+   (p_form p = 3 /\ p_x p = 1 /\ p_y p = 1 /\
+    strip (lower s) = ur_prefix ++ p_chk p ++ 47 :: p_payload p) \/
+   (p_form p = 4 /\ exists a b, noslash a /\ noslash b /\
+    py_int a = Ok (p_x p) /\ py_int b = Ok (p_y p) /\
+    strip (lower s) = ur_prefix ++ (a ++ 111 :: 102 :: b) ++ 47 :: p_chk p ++ 47 :: p_payload p)).
+Proof. exact str_fields_sound. Qed.
+Print Assumptions C20_str_fields_sound.
+
+(* round trips on the real strings: every payload below 2^32 bytes, every chunk size >= 1 *)
+Theorem C20_multi_str_roundtrip :
+  forall (sha256 : bytes -> bytes),
+  (forall x, bytes_ok (sha256 x)) -> (forall x, length (sha256 x) = 32%nat) ->
+  forall d m, bytes_ok d -> zlen d < 4294967296 -> 1 <= m ->
+  exists ss, multi_encode_str sha256 d m true = Ok ss /\ multi_parse_str sha256 ss = Ok d.
+Proof. exact multi_str_roundtrip. Qed.
+Print Assumptions C20_multi_str_roundtrip.
+
+(* animate=False: one "1of1" string whatever max_size_per_chunk is (0 and negatives included) *)
+Theorem C20_multi_str_roundtrip_noanimate :
+  forall (sha256 : bytes -> bytes),
+  (forall x, bytes_ok (sha256 x)) -> (forall x, length (sha256 x) = 32%nat) ->
+  forall d m, bytes_ok d -> zlen d < 4294967296 ->
+  exists s, multi_encode_str sha256 d m false = Ok [s] /\ multi_parse_str sha256 [s] = Ok d.
+Proof. exact multi_str_roundtrip_noanimate. Qed.
+Print Assumptions C20_multi_str_roundtrip_noanimate.
+
+Theorem C20_single_str_roundtrip :
+  forall (sha256 : bytes -> bytes),
+  (forall x, bytes_ok (sha256 x)) -> (forall x, length (sha256 x) = 32%nat) ->
+  forall d uc, bytes_ok d -> zlen d < 4294967296 ->
+  exists s, single_encode_str sha256 d uc = Ok s /\ single_parse_str sha256 s = Ok d.
+Proof. exact single_str_roundtrip. Qed.
+Print Assumptions C20_single_str_roundtrip.
+
+(* exact or collision on strings: whatever the strings are, if the list is accepted and the
+   header of its first string carries (up to case) the checksum text of [d] *)
+Theorem C20_str_reassembly_exact_or_collision :
+  forall (sha256 : bytes -> bytes), (forall x, bytes_ok (sha256 x)) ->
+  forall s ss p d enc enc_hash d',
+  bcur_encode sha256 d = Ok (enc, enc_hash) ->
+  str_fields s = Ok p -> (p_form p = 3 \/ p_form p = 4) -> lower (p_chk p) = enc_hash ->
+  multi_parse_str sha256 (s :: ss) = Ok d' ->
+  d' = d \/ exists cbor cbor', cbor_encode d = Ok cbor /\ cbor' <> cbor /\
+                               sha256 cbor' = sha256 cbor.
+Proof. exact str_reassembly_exact_or_collision. Qed.
+Print Assumptions C20_str_reassembly_exact_or_collision.
+
+(* ------------------------------------------------------------------ corrupted characters in part strings *)
+
+(* The first string of an encoded message with at most ONE character replaced by ANY character,
+   at ANY position (prefix "ur:bytes/", the x-of-y header, either '/', the checksum text, the
+   payload text; replaced by a letter, digit, '/', white space, ...), followed by ANY strings
+   whatsoever: BCURMulti.parse raises, or returns the original payload, or the two exhibited
+   CBOR strings are a SHA-256 collision.  No bound on payload size, chunk size or position. *)
+Theorem C20_multi_str_first_subst :
+  forall (sha256 : bytes -> bytes),
+  (forall x, bytes_ok (sha256 x)) -> (forall x, length (sha256 x) = 32%nat) ->
+  forall d m s1 rest s1' rest' d',
+  bytes_ok d -> zlen d < 4294967296 -> 1 <= m ->
+  multi_encode_str sha256 d m true = Ok (s1 :: rest) ->
+  length s1' = length s1 -> (hamming s1 s1' <= 1)%nat ->
+  multi_parse_str sha256 (s1' :: rest') = Ok d' ->
+  d' = d \/ exists cbor cbor', cbor_encode d = Ok cbor /\ cbor' <> cbor /\
+                               sha256 cbor' = sha256 cbor.
+Proof. exact multi_str_first_subst. Qed.
+Print Assumptions C20_multi_str_first_subst.
+
+(* every single-character substitution in any ONE string of an encoded message *)
+Theorem C20_multi_str_detects_single :
+  forall (sha256 : bytes -> bytes),
+  (forall x, bytes_ok (sha256 x)) -> (forall x, length (sha256 x) = 32%nat) ->
+  forall d m ss pre s s' post d',
+  bytes_ok d -> zlen d < 4294967296 -> 1 <= m ->
+  multi_encode_str sha256 d m true = Ok ss -> ss = pre ++ s :: post ->
+  length s' = length s -> hamming s s' = 1%nat ->
+  multi_parse_str sha256 (pre ++ s' :: post) = Ok d' ->
+  d' = d \/ exists cbor cbor', cbor_encode d = Ok cbor /\ cbor' <> cbor /\
+                               sha256 cbor' = sha256 cbor.
+Proof. exact multi_str_detects_single. Qed.
+Print Assumptions C20_multi_str_detects_single.
+
+(* all permutations / omissions / repetitions: ANY list of strings taken from the strings of an
+   encoded message, if accepted, is an initial segment of the encoder's list (so a permuted,
+   duplicated or internally incomplete selection raises), and the result is the payload or a
+   collision is exhibited (missing trailing parts are only caught by the checksum / digest) *)
+Theorem C20_multi_str_selection :
+  forall (sha256 : bytes -> bytes),
+  (forall x, bytes_ok (sha256 x)) -> (forall x, length (sha256 x) = 32%nat) ->
+  forall d m ss ss' d',
+  bytes_ok d -> zlen d < 4294967296 -> 1 <= m ->
+  multi_encode_str sha256 d m true = Ok ss ->
+  Forall (fun s => In s ss) ss' ->
+  multi_parse_str sha256 ss' = Ok d' ->
+  ss' = firstn (length ss') ss /\
+  (d' = d \/ exists cbor cbor', cbor_encode d = Ok cbor /\ cbor' <> cbor /\
+                                sha256 cbor' = sha256 cbor).
+Proof. exact multi_str_selection. Qed.
+Print Assumptions C20_multi_str_selection.
+
+(* parts taken from another payload: ANY list of strings taken from the strings of TWO encoded
+   messages (any chunk sizes, any order), if accepted, yields the payload of the message its
+   FIRST string belongs to, or a SHA-256 collision is exhibited - never a third value *)
+Theorem C20_multi_str_mixed :
+  forall (sha256 : bytes -> bytes),
+  (forall x, bytes_ok (sha256 x)) -> (forall x, length (sha256 x) = 32%nat) ->
+  forall d1 d2 m1 m2 ss1 ss2 ss' d',
+  bytes_ok d1 -> zlen d1 < 4294967296 -> 1 <= m1 ->
+  bytes_ok d2 -> zlen d2 < 4294967296 -> 1 <= m2 ->
+  multi_encode_str sha256 d1 m1 true = Ok ss1 ->
+  multi_encode_str sha256 d2 m2 true = Ok ss2 ->
+  Forall (fun s => In s ss1 \/ In s ss2) ss' ->
+  multi_parse_str sha256 ss' = Ok d' ->
+  d' = d1 \/ d' = d2 \/
+  exists d cbor cbor', (d = d1 \/ d = d2) /\ cbor_encode d = Ok cbor /\ cbor' <> cbor /\
+                       sha256 cbor' = sha256 cbor.
+Proof. exact multi_str_mixed. Qed.
+Print Assumptions C20_multi_str_mixed.
+
+(* BCURSingle string with checksum, "ur:bytes/<checksum>/<payload>", at most one character
+   replaced anywhere.  Replacing the inner '/' by a bech32 character yields a checksum-less
+   string whose payload is <checksum><c><payload>: it is always refused, because two valid bc32
+   words glued by one symbol never pass the bc32 polymod test (C20_bc32_glued_rejected). *)
+Theorem C20_single_str_detects_single :
+  forall (sha256 : bytes -> bytes),
+  (forall x, bytes_ok (sha256 x)) -> (forall x, length (sha256 x) = 32%nat) ->
+  forall d s s' d',
+  bytes_ok d -> zlen d < 4294967296 ->
+  single_encode_str sha256 d true = Ok s ->
+  length s' = length s -> (hamming s s' <= 1)%nat ->
+  single_parse_str sha256 s' = Ok d' ->
+  d' = d \/ exists cbor cbor', cbor_encode d = Ok cbor /\ cbor' <> cbor /\
+                               sha256 cbor' = sha256 cbor.
+Proof. exact single_str_detects_single. Qed.
+Print Assumptions C20_single_str_detects_single.
+
+Theorem C20_bc32_glued_rejected :
+  forall rc re a x,
+  Forall sym5 rc -> Forall sym5 re ->
+  bech32_polymod (0 :: rc) = BC32_CONSTANT -> bech32_polymod (0 :: re) = BC32_CONSTANT ->
+  bc32decode (map b32c rc ++ a :: map b32c re) <> Ok (Some x).
+Proof. exact bc32_glued_rejected. Qed.
+Print Assumptions C20_bc32_glued_rejected.
+
 (* ------------------------------------------------------------------ non-vacuity *)
 
 Definition toy_sha (b : bytes) : bytes := repeatz (zlen b mod 256) 32.
@@ -200,6 +382,77 @@ Proof. vm_compute. reflexivity. Qed.
 Example ex_premise :
   (c <- cbor_encode [1;2;3;4;5;6;7;8;9;10] ;; e <- bc32encode (toy_sha c) ;; bc32decode e)
   = Ok (Some (toy_sha [74;1;2;3;4;5;6;7;8;9;10])).
+Proof. vm_compute. reflexivity. Qed.
+
+(* the hypotheses on sha256 are satisfiable *)
+Example ex_toy_sha_hyps :
+  (forall x, bytes_ok (toy_sha x)) /\ (forall x, length (toy_sha x) = 32%nat).
+Proof. exact toy_hash_hyps. Qed.
+
+(* the real strings: "ur:bytes/1of4/", ..., "ur:bytes/4of4/" in front of checksum and payload *)
+Example ex_str_headers :
+  (ss <- multi_encode_str toy_sha [1;2;3;4;5;6;7;8;9;10] 7 true ;; Ok (map (firstn 14) ss))
+  = Ok [[117;114;58;98;121;116;101;115;47;49;111;102;52;47];
+        [117;114;58;98;121;116;101;115;47;50;111;102;52;47];
+        [117;114;58;98;121;116;101;115;47;51;111;102;52;47];
+        [117;114;58;98;121;116;101;115;47;52;111;102;52;47]].
+Proof. vm_compute. reflexivity. Qed.
+Example ex_str_roundtrip :
+  (ss <- multi_encode_str toy_sha [1;2;3;4;5;6;7;8;9;10] 7 true ;; multi_parse_str toy_sha ss)
+  = Ok [1;2;3;4;5;6;7;8;9;10].
+Proof. vm_compute. reflexivity. Qed.
+(* upper case, surrounding white space (incl. 0x1c), "+1", "0_4": still the payload *)
+Example ex_str_lenient :
+  (ss <- multi_encode_str toy_sha [1;2;3;4;5;6;7;8;9;10] 100 true ;;
+   match ss with
+   | [s] => multi_parse_str toy_sha [[28; 32] ++ upper ([117;114;58;98;121;116;101;115;47;43;49;111;102;48;95;52] ++ skipn 13 s) ++ [10]]
+   | _ => Err end)
+  = Ok [1;2;3;4;5;6;7;8;9;10].
+Proof. vm_compute. reflexivity. Qed.
+(* one character of the first string replaced: 'x' in the prefix, '2' for the x, 'q' for the
+   first '/', 'p' in the checksum, ' ' for the last payload character -> Err each time *)
+Definition subst_at (n : nat) (c : Z) (s : list Z) : list Z := firstn n s ++ c :: skipn (S n) s.
+Example ex_str_subst :
+  (ss <- multi_encode_str toy_sha [1;2;3;4;5;6;7;8;9;10] 7 true ;;
+   match ss with
+   | s :: r =>
+       Ok (map (fun '(n, c) => multi_parse_str toy_sha (subst_at n c s :: r))
+               [(3%nat, 120); (9%nat, 50); (13%nat, 113); (20%nat, 112); ((length s - 1)%nat, 32)])
+   | [] => Err end)
+  = Ok [Err; Err; Err; Err; Err].
+Proof. vm_compute. reflexivity. Qed.
+(* BCURSingle with checksum: the inner '/' (position 9 + 58) replaced by 'q' -> Err *)
+Example ex_single_glued :
+  (s <- single_encode_str toy_sha [1;2;3;4;5;6;7;8;9;10] true ;;
+   Ok (nth 67 s 0, single_parse_str toy_sha (subst_at 67 113 s), single_parse_str toy_sha s))
+  = Ok (47, Err, Ok [1;2;3;4;5;6;7;8;9;10]).
+Proof. vm_compute. reflexivity. Qed.
+(* any selection: parts 1,2 of 4 are a prefix but fail the checksum; 2,1,3,4 is refused *)
+Example ex_str_selection :
+  (ss <- multi_encode_str toy_sha [1;2;3;4;5;6;7;8;9;10] 7 true ;;
+   match ss with
+   | [a; b; c; d] => Ok (multi_parse_str toy_sha [a; b], multi_parse_str toy_sha [b; a; c; d],
+                         multi_parse_str toy_sha [a; b; c; c; d])
+   | _ => Err end)
+  = Ok (Err, Err, Err).
+Proof. vm_compute. reflexivity. Qed.
+(* two messages mixed: first string of one message followed by the rest of another -> Err *)
+Example ex_str_mixed :
+  (ss1 <- multi_encode_str toy_sha [1;2;3;4;5;6;7;8;9;10] 7 true ;;
+   ss2 <- multi_encode_str toy_sha [9;2;3;4;5;6;7;8;9;10;11] 7 true ;;
+   match ss1, ss2 with
+   | a :: _, _ :: r => Ok (multi_parse_str toy_sha (a :: r), multi_parse_str toy_sha ss2)
+   | _, _ => Err end)
+  = Ok (Err, Ok [9;2;3;4;5;6;7;8;9;10;11]).
+Proof. vm_compute. reflexivity. Qed.
+(* the header parser alone: " UR:BYTES/1_0of+11//Q\n" -> payload "q", empty checksum, x 10, y 11 *)
+Example ex_helper :
+  parse_helper_str [32;85;82;58;66;89;84;69;83;47;49;95;48;111;102;43;49;49;47;47;81;10]
+  = Ok ([113], Some [], 10, 11).
+Proof. vm_compute. reflexivity. Qed.
+(* int() details: "\x1c1" is refused although strip() would remove 0x1c; "1__0" and "+" too *)
+Example ex_py_int : (py_int [28;49], py_int [49;95;95;48], py_int [43], py_int [32;45;48;55;10])
+  = (Err, Err, Err, Ok (-7)).
 Proof. vm_compute. reflexivity. Qed.
 
 (* The constants written in the model are the constants of the SOURCE: coq/Generated/SrcConsts.v is regenerated
